@@ -7,7 +7,7 @@ bin="$here/bin/ipnicheck"
 stale=0
 [ -x "$bin" ] || stale=1
 if [ $stale = 0 ]; then
-  for f in "$here"/checker/*.go "$here"/checker/go.mod; do
+  for f in "$here"/checker/*.go "$here"/checker/*.json "$here"/checker/go.mod; do
     [ "$f" -nt "$bin" ] && { stale=1; break; }
   done
 fi
